@@ -76,7 +76,7 @@ def judge(ctx, src, target, extra, res, what, size_limit_for_hang=1 << 16, stdin
         if cq is None:
             res.discard.append("asan-only-stack-overflow")
             return p
-        kind, where, text = "stack-overflow", what.split(":")[0], "plain build, 8 MiB stack: %s" % (cq[0],)
+        kind, where, text = "stack-overflow", ":".join(what.split(":")[:2]) if what.startswith("stress:") else what.split(":")[0], "plain build, 8 MiB stack: %s" % (cq[0],)
     res.fail = dict(sig="%s:%s" % (kind, where), msg="%s %s (%s, target %s, args %s)\n%s"
                     % (kind, where, what, target, list(extra), text))
     return p
